@@ -9,6 +9,9 @@ Tie: T — Generated/RouterLockShape.lean (every access to a Router field with t
          middlewares) and paths around it; the implementation's answer must be one of the outcomes the model admits
          (over all map iteration orders) and is judged by the independent specification;
      evidence — concurrent Handle/HandleRemove/DefaultHandle/ServeCOAP under the race detector (harness/c17race).
+Round 10: Props/C17Vars (the variables are those of the leftmost-first decomposition; the judge requires it: gen_ambiguous),
+     Props/C17Access (GetRoute/GetRoutes/GetRouteRegexp/SetErrorHandler after random histories: getroutes, getroute, seterr, servefail),
+     Props/C17Nested (one message object dispatched repeatedly, routers mounted in routers: inner, mount, msgnew, msgpath, msgserve).
 """
 import glob
 import json
@@ -18,7 +21,7 @@ import subprocess
 
 from . import common
 
-MODULES = ["CoapVerif.Props.C17"]
+MODULES = ["CoapVerif.Props.C17", "CoapVerif.Props.C17Vars", "CoapVerif.Props.C17Access", "CoapVerif.Props.C17Nested"]
 GENERATED = ["RouterLockShape.lean", "OptionDefs.lean"]
 
 
@@ -237,6 +240,19 @@ def gen_case(rng):
                 meta["meta_literal"] = True
     nq = rng.choice([4, 6, 8, 10])
     for _ in range(nq):
+        if rng.random() < 0.12:
+            # the accessors and the error handler: compared with the model (entries, handlers, expression text) and judged
+            # against the judge's own record of the live registrations
+            a = rng.random()
+            if a < 0.35:
+                lines.append("getroutes")
+            elif a < 0.7:
+                lines.append("getroute %s" % hx(rng.choice(templates + ["/nope", "", "/"])))
+            elif a < 0.82:
+                lines.append("seterr e%d" % rng.randrange(3))
+            else:
+                lines.append("servefail %s" % rng.choice(["none", hx("/" + "/".join(mutate_path(rng, segs))), hx("/no/such")]))
+            continue
         k = rng.random()
         if k < 0.06 and templates:
             lines.append("unroute %s" % hx(rng.choice(templates + ["/nope", ""])))
@@ -318,6 +334,20 @@ def gen_systematic():
                 lines = ["reset", "route %s h1" % hx("/a"), "usev %d %s" % (spare, names)] + after + \
                         ["serve %s" % hx("/a"), "serve %s" % hx("/zz"), "mw last", "serve %s" % hx("/a")]
                 cases.append((lines, {"meta_literal": False, "invalid": 0, "templates": ["/a"]}))
+    # accessors after register / replace / remove / refused registrations; the error handler set, replaced, and a router
+    # whose default handler is the application's
+    acc = ["reset", "getroutes", "getroute -", "servefail %s" % hx("/q"), "route %s h1" % hx("/a.b/{x}-{y:[0-9]+}"), "routef %s nil" % hx("/n"),
+           "route - h2", "route %s h3" % hx("/a.b/{x}-{y:[0-9]+}"), "route %s h4" % hx("/{bad"), "route %s nil" % hx("/nilh"), "getroutes", "getroute -",
+           "getroute %s" % hx("/"), "getroute %s" % hx("/n"), "getroute %s" % hx("/zz"), "getroute %s" % hx("/{bad"), "getroute %s" % hx("/nilh"),
+           "unroute %s" % hx("/n"), "getroutes", "getroute %s" % hx("/n"), "serve %s" % hx("/a.b/p-q-12"), "unroute %s" % hx("/n"), "getroutes",
+           "servefail %s" % hx("/nothing"), "seterr e1", "servefail %s" % hx("/nothing"), "seterr e2", "servefail none",
+           "servefail %s" % hx("/nothing"), "servefail %s" % hx("/a.b/p-q-12"), "mw m1", "servefail %s" % hx("/nothing"), "default d1",
+           "servefail %s" % hx("/nothing"), "getroutes", "defaultf nil", "servefail %s" % hx("/nothing"), "default nil", "servefail %s" % hx("/nothing"),
+           "unroute -", "unroute %s" % hx("/a.b/{x}-{y:[0-9]+}"), "getroutes", "getroute -", "serve %s" % hx("/")]
+    cases.append((acc, {"meta_literal": True, "invalid": 1, "templates": ["/a.b/{x}-{y:[0-9]+}"]}))
+    for t in META[:20]:
+        lines = ["reset", "route %s h1" % hx("/" + t + "/{v}"), "getroutes", "getroute %s" % hx("/" + t + "/{v}"), "getroute %s" % hx("/" + t)]
+        cases.append((lines, {"meta_literal": True, "invalid": 0, "templates": ["/" + t + "/{v}"]}))
     for d in ["default nil", "defaultf nil", "default d1", "defaultf d2"]:
         lines = ["reset", "mw m1", "mw m2", d, "serve none", "serve %s" % hx("/"), "serve %s" % hx("/a"), "route - h1", "serve none",
                  "serve %s" % hx("/"), "serve %s" % hx("//"), "unroute %s" % hx("/"), "unroute -", "serve none", "routef %s nil" % hx("/a"),
@@ -412,7 +442,7 @@ def gen_wire_case(rng):
             if any(len(x.encode("utf-8")) > 255 for x in segs):
                 continue
             out.append(wire_line(rng, segs, failed=rng.random() < 0.2))
-        elif f[0] != "match":
+        elif f[0] not in ("match", "getroutes", "getroute", "servefail"):
             out.append(l)
     return out, meta
 
@@ -443,6 +473,131 @@ def gen_wire_systematic(rng):
             lines += ["mw m1", "default nil"] + [wire_line(rng, segs, c, tr) for segs in ps for c in (2, 6)]
             cases.append((lines, {"meta_literal": False, "invalid": 0, "templates": ts}))
     return cases
+
+
+AMB_PATTERNS = [".*", ".*?", ".+", ".+?", "[^/]+", "[^/]*?", "[^/]+?", "[ab]*", "[ab]+?", "a*", "a+?", "a|ab", "ab|a", "a|ab|abc",
+                "abc|ab|a", "(?:a|ab)(?:c|bcd)?", "(?:ab|a)*", "(?:a|b)*?", "a?", "a??", "a{1,3}", "a{1,3}?", "a{2,}", "a{2,}?", "\\d+",
+                "\\d+?", "\\d{1,2}", "[ab-]*", "(?:a|b|-)+", "(?:-|a)*?", "b?(?:ab)*", "(?:a*)", "(?:a|)", "(?:|a)", "(?:a|)b?", "[^-]*",
+                "[^-]+?", "(?:ab|a)(?:bc|c)?", "(?:a|ab)(?:bc|c)??", "\\w*", "\\w+?", "(?:aa|a)+", "(?:a|aa)+?", "[a-c]{0,2}", "[a-c]{0,2}?"]
+AMB_FIXED = [(["/{x}-{y}"], ["/p-q-r", "/a--b", "/-a-", "/---", "/a-b", "/-", "/a"]),
+             (["/{x}-{y}-{z}"], ["/a-b-c-d-e", "/----", "/a-b-c", "/a-b"]),
+             (["/{a}{b:.*}"], ["/abc", "/a", "/", "/a/b"]), (["/{a:.*}{b}"], ["/abc", "/a", "/a/b", "/a/"]),
+             (["/{a:.*?}{b:.*}"], ["/abc", "/"]), (["/{a:\\d+}{b:\\d+}"], ["/12345", "/12", "/1"]),
+             (["/{a:\\d+?}{b:\\d+}"], ["/12345", "/12"]), (["/{a:\\d{1,3}}{b:\\d*}"], ["/12345", "/12", "/1234"]),
+             (["/{a:\\d{1,3}?}{b:\\d*}"], ["/12345", "/1"]), (["/{a:a|ab}{b:b?}c", "/{a:ab|a}{b:b?}c"], ["/abc", "/ac", "/abbc"]),
+             (["/{a:a|ab|abc}{b:.*}"], ["/abcd", "/abc", "/ab", "/a"]), (["/{a:(?:a|ab)(?:c|bcd)?}{b:.*}"], ["/abcd", "/abc", "/acd"]),
+             (["/{a:(?:ab|a)*}{b:[ab]*}"], ["/abab", "/aab", "/aba", "/"]), (["/{a:(?:a|b)*?}{b:b*}"], ["/abb", "/bbb", "/ab"]),
+             (["/{x:.*}/{y:.*}/{z:.*}"], ["/a/b/c/d", "/a/b/c", "///", "/a//b/"]), (["/{x:.*?}/{y:.*}"], ["/a/b/c", "//"]),
+             (["/{x:.+}/{y}"], ["/a/b/c", "/a/b"]), (["/{a:x??}{b:x*}"], ["/xx", "/x", "/"]),
+             (["/{v}-{v}"], ["/a-b-c", "/a-b"]), (["/{a:(?:aa|a)+}{b:a*}"], ["/aaa", "/aaaa", "/a"]),
+             (["/{a:(?:a|aa)+?}{b:a*}"], ["/aaa", "/a"]), (["{x:.*}{y:.*}"], ["/abc", "/"]),
+             (["/é{a:.*}{b:é*}"], ["/ééé", "/éaé"])]
+
+
+def gen_ambiguous(rng):
+    """a case whose templates have several variables side by side (or separated by a character their patterns admit), greedy
+    against lazy, alternations: most of its paths have two or more decompositions along the dispatched pattern"""
+    alpha = "aab-1c/"
+    nvars = rng.choice([2, 2, 2, 3])
+    names = rng.sample(["x", "y", "z", "v", "w"], nvars)
+    t = rng.choice(["/", "/", "/", "", "/k", "/a"])
+    for i, n in enumerate(names):
+        p = rng.choice(AMB_PATTERNS)
+        t += "{%s}" % n if p == "[^/]+" and rng.random() < 0.5 else "{%s:%s}" % (n, p)
+        if i < nvars - 1:
+            t += rng.choice(["", "", "-", "/", "a", "ab"])
+    t += rng.choice(["", "", "", "c", "-", "/", "b"])
+    lines = ["reset", "route %s h1" % hx(t)]
+    templates = [t]
+    if rng.random() < 0.3:
+        t2 = rng.choice(AMB_FIXED)[0][0]
+        lines.append("route %s h2" % hx(t2))
+        templates.append(t2)
+    if rng.random() < 0.2:
+        lines.append("mw m1")
+    for _ in range(rng.choice([6, 8, 10])):
+        n = rng.choice([0, 1, 2, 3, 3, 4, 4, 5, 6, 8])
+        path = "/" + "".join(rng.choice(alpha) for _ in range(n))
+        k = rng.random()
+        if k < 0.1:
+            lines.append("match %s" % hx(path))
+        else:
+            lines.append("%s %s" % ("served" if k < 0.2 else "serve", hx(path)))
+    return lines, {"meta_literal": False, "invalid": 0, "templates": templates}
+
+
+def gen_ambiguous_systematic():
+    cases = []
+    for ts, ps in AMB_FIXED:
+        lines = ["reset"] + ["route %s h%d" % (hx(t), i) for i, t in enumerate(ts)]
+        for q in ps:
+            lines.append("serve %s" % hx(q))
+            lines.append("match %s" % hx(q))
+        cases.append((lines, {"meta_literal": False, "invalid": 0, "templates": ts}))
+    return cases
+
+
+MOUNTS = [("/api/{rest:.*}", "rest"), ("/m/{p:.+}", "p"), ("/{t}/sub/{tail:.*}", "tail"), ("/v{n:[0-9]}/{r:.*}", "r"), ("/ap/{rest}", "rest"),
+          ("/{rest:.*}", "rest"), ("/api/{a}/{rest:.*}", "rest"), ("/é/{ü:.*}", "ü")]
+OUTER_PLAIN = ["/x/{a}", "/api/status", "/{x}", "/x/{a}/{b}", "/", "/nothing/{h}", "/api/dev/{id}/on"]
+INNER_ROUTES = ["/dev/{id}", "/dev/{id}/{x}", "/{rest}", "/status", "/", "/{a}-{b}", "/dev/{rest:.*}", "/{id:[0-9]+}", "/{a:a|ab}{b:b?}c", "/{x}/sub/{y}"]
+MSG_PATHS = ["/api/dev/42", "/api/dev/42/on", "/api/status", "/api/", "/api", "/nothing/here", "/x/7", "/m/dev/1", "/m/", "/t/sub/dev/3",
+             "/v1/dev/5", "/api/a-b", "/api/12", None, "/", "/x/7/8", "/api//dev", "/ap/dev", "/dev/42", "/api/abc", "/api/q/dev/9", "/é/dev/ü",
+             "/m/status", "/api/dev/42/on/", "/api/p-q-r"]
+
+
+def distinct_lengths(rng, pool, k, taken):
+    out = []
+    for t in rng.sample(pool, len(pool)):
+        n = len((t[0] if isinstance(t, tuple) else t).encode("utf-8"))
+        if n in taken:
+            continue
+        taken.add(n)
+        out.append(t)
+        if len(out) == k:
+            break
+    return out
+
+
+def gen_nested(rng):
+    """one message object dispatched again and again while its Uri-Path is rewritten; routes of the outer router whose
+    handler strips the path to a variable and hands the same message to an inner router.  Patterns of one router have
+    pairwise different lengths (no ties: the state of the message after a dispatch is then determined)."""
+    lines = ["reset"]
+    taken = set()
+    mounts = distinct_lengths(rng, MOUNTS, rng.choice([1, 1, 2]), taken)
+    plains = distinct_lengths(rng, OUTER_PLAIN, rng.choice([0, 1, 2]), taken)
+    for i, (t, v) in enumerate(mounts):
+        lines.append("mount %s %s" % (hx(t), hx(v)))
+    for i, t in enumerate(plains):
+        lines.append("route %s o%d" % (hx(t), i))
+    if rng.random() < 0.6:
+        lines.append(rng.choice(["default od", "defaultf od", "default nil"]))
+    for _ in range(rng.choice([0, 0, 1, 2])):
+        lines.append("mw m%d" % rng.randrange(3))
+    itaken = set()
+    inner = distinct_lengths(rng, INNER_ROUTES, rng.choice([1, 2, 3]), itaken)
+    for i, t in enumerate(inner):
+        lines.append("inner route %s i%d" % (hx(t), i))
+    if rng.random() < 0.6:
+        lines.append(rng.choice(["inner default id", "inner defaultf id"]))
+    for _ in range(rng.choice([0, 0, 1])):
+        lines.append("inner mw n%d" % rng.randrange(3))
+
+    def parg(q):
+        return "none" if q is None else hx(q)
+    lines.append("msgnew %s" % parg(rng.choice(MSG_PATHS)))
+    lines.append("msgserve")
+    for _ in range(rng.choice([3, 5, 8])):
+        k = rng.random()
+        if k < 0.08:
+            lines.append("msgnew %s" % parg(rng.choice(MSG_PATHS)))
+        elif k < 0.14 and inner:
+            lines.append(rng.choice(["inner unroute %s" % hx(rng.choice(inner)), "unroute %s" % hx(rng.choice(mounts)[0])]))
+        elif k < 0.85:
+            lines.append("msgpath %s" % parg(rng.choice(MSG_PATHS)))
+        lines.append("msgserve")
+    return lines, {"meta_literal": False, "invalid": 0, "templates": [m[0] for m in mounts] + plains + inner}
 
 
 def load_corpus():
@@ -527,7 +682,7 @@ def minimise(art, lines, clause):
     return lines
 
 
-DISPATCH_OPS = ("serve", "served", "match", "wire")
+DISPATCH_OPS = ("serve", "served", "match", "wire", "servefail", "msgserve")
 
 
 def show_line(l):
@@ -545,6 +700,13 @@ def explore(ctx, art):
     cases = load_corpus()
     direct = [c for c in cases if not any(l.startswith("wire ") for l in c[0])] + gen_systematic()
     wired = [c for c in cases if any(l.startswith("wire ") for l in c[0])]
+    direct += gen_ambiguous_systematic()
+    n_amb = 20000 if thorough else 1500
+    for _ in range(n_amb):
+        direct.append(gen_ambiguous(rng))
+    n_nested = 10000 if thorough else 800
+    for _ in range(n_nested):
+        direct.append(gen_nested(rng))
     n_random = 100000 if thorough else 6000
     for _ in range(n_random):
         direct.append(gen_case(rng))
@@ -556,6 +718,7 @@ def explore(ctx, art):
             wired.append(gen_wire_case(rng))
         evaluate(ctx, art, wired, n_wire)
     ctx.cov["distinct_nontrivial"] = len(ctx.nontrivial)
+    ctx.cov["distinct_ambiguous_dispatches"] = len(getattr(ctx, "ambiguous", ()))
     ctx.cov["rule"] = ("one evaluation = one dispatch (serve: through mux.ToHandler, the servers' adapter, requests of a case one after another; "
                        "served: Router.ServeCOAP directly; match: Router.Match directly; wire: request BYTES from an independent encoder "
                        "- any method code, one Uri-Path option per segment incl. empty ones, optionally under the token of an observe registration / "
@@ -564,13 +727,20 @@ def explore(ctx, art):
                        "sequence of route/routef/unroute/default/mw operations on a fresh real mux.Router. Non-trivial = at least two "
                        "registered patterns match the path, or a registered template has a regex metacharacter in a literal; distinct by "
                        "(operation prefix, request). The implementation's answer must be among the model's outcomes over all map "
-                       "iteration orders and is judged by Spec/Router (derivative matcher, independent template cutter).")
+                       "iteration orders and is judged by Spec/Router (derivative matcher, independent template cutter) and Spec/RouterPrefer "
+                       "(the variables must be those of the leftmost-first decomposition; distinct_ambiguous_dispatches = dispatches whose path "
+                       "has two or more decompositions along the dispatched pattern). servefail: a response writer that refuses; msgserve: "
+                       "ServeCOAP on ONE message object again and again while its Uri-Path is rewritten, also through mount routes into an inner "
+                       "router; getroutes / getroute: accessors compared with model and judged against the judge's record of registrations.")
 
 
 def evaluate(ctx, art, cases, n_random):
     if not hasattr(ctx, "nontrivial"):
         ctx.nontrivial = set()
     nontrivial = ctx.nontrivial
+    if not hasattr(ctx, "ambiguous"):
+        ctx.ambiguous = set()
+    ambiguous = ctx.ambiguous
     lines, owner = [], []
     for ci, (ls, meta) in enumerate(cases):
         for l in ls:
@@ -583,7 +753,6 @@ def evaluate(ctx, art, cases, n_random):
         return
     bad_cases = {}
     mism = 0
-    nontrivial = set()
     for i, (l, o) in enumerate(zip(lines, impl)):
         ci = owner[i]
         op = l.split()[0]
@@ -607,6 +776,10 @@ def evaluate(ctx, art, cases, n_random):
             j = judge[i]
             if j.startswith("violates"):
                 bad_cases.setdefault(ci, (j.split(" ", 1)[1], "%s: observed `%s`: %s" % (show_line(l)[:200], o[:200], j)))
+            elif j.startswith("ok ambiguous "):
+                n = int(j.split()[2])
+                ctx.count("path-with-%s-decompositions-along-the-dispatched-pattern" % (n if n < 4 else "4+"))
+                ambiguous.add((tuple(cases[ci][0][:cases[ci][0].index(l) if l in cases[ci][0] else 0]), l))
             elif j != "ok":
                 mism += 1
                 if mism <= 3:
